@@ -202,6 +202,7 @@ type NotifyCase struct {
 	W         int   `json:"waiters"`
 	P         int   `json:"publishers"`
 	Prefill   int   `json:"prefill"`
+	Existing  int   `json:"existing"` // messages already in the directory before the blocking wrapper is opened
 	AllowKey  bool  `json:"allow_key"`
 	Cancel    bool  `json:"allow_cancel"`
 	Close     bool  `json:"allow_close"`
@@ -226,6 +227,25 @@ func runNotifySchedule(c *NotifyCase, ch chooser, st *Stats) (viol string, inter
 	defer os.RemoveAll(root)
 	dir := filepath.Join(root, "log")
 	_ = os.MkdirAll(dir, 0700)
+	if c.Existing > 0 {
+		// the wrapper must start from the log's NextOffset, not from 0
+		pl, err := klevdb.Open(dir, klevdb.Options{KeyIndex: true})
+		if err != nil {
+			return "open: " + err.Error(), false
+		}
+		for i := 0; i < c.Existing; i++ {
+			key, val := []byte("a"), []byte(fmt.Sprintf("e%d", i))
+			if c.Typed {
+				val = []byte(fmt.Sprintf("e%d", i))
+			}
+			if _, err := pl.Publish([]klevdb.Message{{Key: key, Value: val}}); err != nil {
+				return "publish: " + err.Error(), false
+			}
+		}
+		if err := pl.Close(); err != nil {
+			return "close: " + err.Error(), false
+		}
+	}
 	var l *blog
 	var err error
 	if c.Typed {
@@ -240,8 +260,8 @@ func runNotifySchedule(c *NotifyCase, ch chooser, st *Stats) (viol string, inter
 	byGo := map[int64]*nTask{}
 	var tasks []*nTask
 	clock := 0
-	logNext := int64(0)    // NextOffset of the log (Log.Publish completed)
-	notifyNext := int64(0) // largest offset a completed notify.Set has announced
+	logNext := int64(c.Existing)    // NextOffset of the log (Log.Publish completed)
+	notifyNext := int64(c.Existing) // largest offset a completed notify.Set has announced (starts at NextOffset)
 	closeStarted, closeDone := false, false
 	closeStartAt := -1
 	var pubs []*nTask
@@ -589,7 +609,7 @@ func hasWaiterInWindow(tasks []*nTask) bool {
 }
 
 func genNotifyCase(t *rapid.T) *NotifyCase {
-	return &NotifyCase{Typed: uni(t, 4, "typed") == 3, W: 1 + uni(t, 8, "W"), P: 1 + uni(t, 3, "P"), Prefill: uni(t, 3, "prefill"),
+	return &NotifyCase{Typed: uni(t, 4, "typed") == 3, W: 1 + uni(t, 8, "W"), P: 1 + uni(t, 3, "P"), Prefill: uni(t, 3, "prefill"), Existing: pick(t, []int{0, 0, 1, 3}, "existing"),
 		AllowKey: true, Cancel: rapid.Bool().Draw(t, "cancel"), Close: rapid.Bool().Draw(t, "close"), MaxSteps: 120}
 }
 
@@ -637,6 +657,8 @@ func TestC18Exhaustive(t *testing.T) {
 		{W: 1, P: 1, FixedOffs: true, Typed: true},
 		{W: 1, P: 0, FixedOffs: true, Close: true, Cancel: true},
 		{W: 1, P: 2, FixedOffs: true},
+		{W: 1, P: 1, FixedOffs: true, Existing: 2},
+		{W: 1, P: 0, FixedOffs: true, Existing: 2, Cancel: true},
 	}
 	if thoroughTier() {
 		configs = append(configs, NotifyCase{W: 2, P: 1, FixedOffs: true}, NotifyCase{W: 2, P: 1, FixedOffs: true, Close: true})
